@@ -64,6 +64,26 @@ func (e *Engine) invoke(st *State, f *Frame, res ssa.Value, in ssa.Instruction, 
 			}
 			panic(hardErr("context method " + cc.Method.Name()))
 		}
+		if iv.typ == e.rtypeType() {
+			// reflect.Type value made by the reflect.TypeOf stub
+			name := st.obj(iv.val.(PtrV).obj).fields[0].(StrV).lit
+			var v Value
+			switch cc.Method.Name() {
+			case "Comparable":
+				e.mu.Lock()
+				t := e.rtypes[name]
+				e.mu.Unlock()
+				v = BoolV{e.tb.Bool(types.Comparable(t))}
+			case "String", "Name":
+				v = StrV{k: strLit, lit: name}
+			default:
+				panic(hardErr("reflect.Type method " + cc.Method.Name()))
+			}
+			if res != nil {
+				f.locals[res] = v
+			}
+			return
+		}
 		if e.isWrapErr(iv) && cc.Method.Name() == "Error" {
 			if res != nil {
 				f.locals[res] = st.obj(iv.val.(PtrV).obj).fields[0]
